@@ -137,6 +137,38 @@ def ambient_check(ctx, stream, op, dep, x, y, impl, rerun):
                  f"the default (Frechet) bounds no longer bound every dependence")
 
 
+class _Probe(Exception):
+    pass
+
+
+def leaked_ambient_check(ctx, stream, op, x, y, impl, idt):
+    """STATE LEFT BY AN EARLIER CALL: an exception raised inside `with dependency(d)` and caught by the caller must not
+    leave the ambient code behind — the bare operator used afterwards is still the default (Frechet) one.  Run in a copy of
+    the context so that a leak does not poison the rest of the harness."""
+    if impl[0] != "ok" or ctx.rng.random() > 0.12:
+        return
+    import contextvars
+    import pyuncertainnumber.pba as _pba
+    amb = ctx.rng.choice(["p", "o", "i"])
+
+    def body():
+        try:
+            with _pba.dependency(amb):
+                raise _Probe()
+        except _Probe:
+            pass
+        return impl_public(op, "f", x, y, True, int_dtype=idt, keep=False)
+    after = contextvars.copy_context().run(body)
+    ctx.bump("bare-after-exception-inside-" + amb)
+    if after != impl:
+        ctx.fail({"op": op, "dep": "f", "check": "ambient-leak", "symptom": "bare-operator-not-frechet-after-exception-in-block", "ambient": amb,
+                  "sx": pbx.sign_class(*x)[:3], "sy": pbx.sign_class(*y)[:3], "public": True, "n": len(x[0])},
+                 {"stream": stream, "op": op, "ambient": amb, "x": [x[0][0], x[0][-1], x[1][0], x[1][-1]], "y": [y[0][0], y[0][-1], y[1][0], y[1][-1]],
+                  "frechet": pbx.js(impl), "after": pbx.js(after)},
+                 f"after an exception raised inside `with dependency('{amb}')` was caught by the caller, the bare operator {op} no longer "
+                 f"returns the default (Frechet) bounds: the ambient code was left behind")
+
+
 def recheck_kept(ctx, prop):
     """results produced earlier must still read the same (no shared work buffers / aliasing), operands unchanged"""
     n = 0
@@ -395,6 +427,8 @@ def run(ctx: core.Check):
                 if not bare and stream != "public-ivlobj":
                     ambient_check(ctx, stream, op, "f", x, y, impl,
                                   lambda amb: impl_public(op, "f", x, y, False, int_dtype=idt, keep=False, ambient=amb))
+                if stream != "public-ivlobj":
+                    leaked_ambient_check(ctx, stream, op, x, y, impl, idt)
                 strict_mode_check(ctx, "C02", stream, op, "f", x, y, impl,
                                   lambda: impl_public(op, "f", x, y, bare, int_dtype=idt, keep=False,
                                                       y_interval=(stream == "public-ivlobj"), wmode="error"))
